@@ -1444,6 +1444,61 @@ class Proof:
     def rd(self, arr, i):
         return self.E.rd(arr, i)
 
+    # ---- explicit-instantiation style: every obligation below is quantifier-free
+    def schema(self, name, fn, closed=None):
+        """name an already established universally quantified fact as an instantiable schema"""
+        self.E.st.ghost.setdefault('schemas', {})[name] = fn
+
+    def inst(self, name, *terms):
+        return self.E.st.ghost['schemas'][name](*terms)
+
+    def forall(self, name, vars_, prem, concl, by=(), patterns=None):
+        """prove  forall vars. prem => concl  for arbitrary (fresh) vars from the ground facts in `by` (instances of
+        earlier schemas) and the quantifier-free part of the path; then register it as a schema and add it to the path"""
+        self.count += 1
+        tag = '%s/proof@%s:%s' % (self.E.fn_short, '-'.join(str(a) for a in self.anchor), name)
+        fresh = [z3.Int(fresh_name(str(v))) for v in vars_]
+        sub = list(zip(vars_, fresh))
+        g = lambda t: z3.substitute(t, *sub)
+        hyps = [g(h) for h in by] + [g(prem)]
+        self.E.oblige_focused('proof', hyps, g(concl), self.node, name=tag, assume=False)
+        body = z3.Implies(prem, concl)
+        vs = list(vars_)
+        self.schema(name, lambda *ts: z3.substitute(body, *list(zip(vs, [t if isinstance(t, z3.ExprRef) else z3.IntVal(t) for t in ts]))))
+        closed = z3.ForAll(vs, body, patterns=patterns) if patterns else z3.ForAll(vs, body)
+        self.E.assumptions_quant(closed)
+        self.E.st.ghost.setdefault('facts', {})[name] = closed
+
+    def ground(self, name, concl, by=()):
+        """a ground fact from ground instances"""
+        tag = '%s/proof@%s:%s' % (self.E.fn_short, '-'.join(str(a) for a in self.anchor), name)
+        self.E.oblige_focused('proof', list(by), concl, self.node, name=tag, assume=True)
+        self.schema(name, lambda: concl)
+        self.E.st.ghost.setdefault('facts', {})[name] = concl
+
+    def induct_q(self, name, var, lo, hi, pred, step_by, params=(), prem=None):
+        """forall params, var in [lo, hi]: pred, by induction on var (lo, hi, pred may mention params).  base and
+        step are quantifier-free obligations: pred[lo], and pred[i] & step_by(i) => pred[i+1] for lo <= i < hi."""
+        tag = '%s/proof@%s:%s' % (self.E.fn_short, '-'.join(str(a) for a in self.anchor), name)
+        i = z3.Int(fresh_name('ind'))
+        pf = [z3.Int(fresh_name(str(v))) for v in params]
+        sub = list(zip(params, pf))
+        g = lambda t: z3.substitute(t, *sub) if sub else t
+        at = lambda t, x: z3.substitute(g(t), (var, x))
+        P0 = [g(prem)] if prem is not None else []
+        lo_, hi_ = g(lo) if isinstance(lo, z3.ExprRef) else z3.IntVal(lo), g(hi) if isinstance(hi, z3.ExprRef) else z3.IntVal(hi)
+        self.E.oblige_focused('proof', P0 + [lo_ <= hi_] + [g(h) for h in step_by(lo_ - 1)][:0], at(pred, lo_), self.node,
+                              name=tag + '/base', assume=False)
+        self.E.oblige_focused('proof', P0 + [lo_ <= i, i < hi_, at(pred, i)] + [g(h) for h in step_by(i)], at(pred, i + 1),
+                              self.node, name=tag + '/step', assume=False)
+        vs = list(params) + [var]
+        rng = z3.And(lo <= var, var <= hi) if prem is None else z3.And(prem, lo <= var, var <= hi)
+        body = z3.Implies(rng, pred)
+        self.schema(name, lambda *ts: z3.substitute(body, *list(zip(vs, [t if isinstance(t, z3.ExprRef) else z3.IntVal(t) for t in ts]))))
+        closed = z3.ForAll(vs, body)
+        self.E.assumptions_quant(closed)
+        self.E.st.ghost.setdefault('facts', {})[name] = closed
+
 
 class _NoDefault:
     pass
